@@ -191,9 +191,9 @@ func parseJSON(data string, opts *ParseOptions) (Object, error) {
 			} else {
 				fmembers = append(fmembers, ',')
 			}
-			fmembers = append(fmembers, pretty.UglyInPlace([]byte(key.Raw))...)
+			fmembers = append(fmembers, pretty.Ugly([]byte(key.Raw))...)
 			fmembers = append(fmembers, ':')
-			fmembers = append(fmembers, pretty.UglyInPlace([]byte(val.Raw))...)
+			fmembers = append(fmembers, pretty.Ugly([]byte(val.Raw))...)
 		}
 		return true
 	})
